@@ -126,3 +126,19 @@ def register(reg):
                  "notified_once(self)"],
         raises={"IndexError": "not (-len(old(self._headers)) <= idx and idx < len(old(self._headers)))"},
     )
+
+    # ---- the constructor establishes the invariant (base case of the induction over histories)
+    reg.contract(
+        "werkzeug/datastructures/structures.py:HeaderSet.__init__", prop=P, self_model=HS,
+        params={"headers": "Optional[List[str]]", "on_update": "Optional[opaque:callback]"},
+        ghost_after={"self._set.add(header.lower())": ["self._pos[header.lower()] = len(self._headers) - 1"]},
+        ensures=["I_hs(self)",
+                 "implies(headers is not None, forall(0, len(headers), lambda j: member(self, headers[j])))",
+                 "implies(headers is None, len(self._headers) == 0)",
+                 "implies(headers is not None, len(self._headers) <= len(headers))",
+                 "self.on_update == on_update"],
+        raises={},
+        loops={0: {"inv": ["I_hs_a(self)", "I_hs_b(self)", "forall(0, _i, lambda j: member(self, headers[j]))",
+                           "len(self._headers) <= _i"],
+                   "modifies": ["self._headers", "self._set", "self._pos"]}},
+    )
